@@ -11,5 +11,6 @@ Definition writable_globals : list (string * string) :=
    ("mixer", "libxmp_verif_mixer_iters");
    ("mixer", "libxmp_verif_wraparound.ld");
    ("mixer", "libxmp_verif_wraplog");
+   ("player", "libxmp_verif_seqstep");
    ("scan", "libxmp_verif_scanlog");
    ("scan", "libxmp_verif_seqlog")].
